@@ -225,6 +225,7 @@ pub fn client_uuid(salt: u32, idx: u8) -> Uuid {
                 // all ones but the last digit
                 let mut b = [0xFFu8; 16];
                 b[15] = 0xF0 | (idx & 0x0F);
+                b[14] = 0xFF - (idx >> 4);
                 return Uuid::from_bytes(b);
             }
             13 => {
@@ -272,6 +273,10 @@ pub enum IdRef {
     Fresh(u32),
     /// a concrete id (never generated; used when a history is projected onto one client)
     Literal(Uuid),
+    /// an id that differs from `Ancestor(client, back)` (the chain base when that runs off the
+    /// chain) in a few bytes only: mode 0 the last byte, 1 the first byte, 2 the last six bytes,
+    /// 3 the first six bytes - a near miss of an id the server knows
+    Near(u8, u8, u8),
 }
 
 #[derive(Clone, Debug, Serialize, Deserialize, PartialEq, Eq, Hash)]
@@ -327,10 +332,25 @@ pub fn today_days() -> i64 {
 /// The age an `Op::AgeSnapshot { days }` stands for: below 60000 the number itself; from 60000 on
 /// an age relative to the calendar - the snapshot is placed `days - 62500` days after 1970-01-01.
 pub fn age_days(days: u16) -> i64 {
-    if days < 60000 {
+    if (59900..60000).contains(&days) {
+        // a snapshot stamped in the future (the clock was stepped back, or the database came
+        // from a host whose clock runs ahead): 59900 + d means d days ahead, minus part of a day
+        -((days - 59899) as i64)
+    } else if days < 60000 {
         days as i64
     } else {
         today_days() - (days as i64 - 62500)
+    }
+}
+
+/// What `now - timestamp` comes to in whole days for an age passed to `Driver::age_snapshot`
+/// (which puts the snapshot part of a day further back): the age itself, or for a future stamp
+/// one day less far ahead (whole days truncate towards zero).
+pub fn observed_age_days(age: i64) -> i64 {
+    if age < 0 {
+        age + 1
+    } else {
+        age
     }
 }
 
@@ -468,6 +488,7 @@ fn idref(own: u8, n: u8, p: &GenParams, latest_w: u32) -> BoxedStrategy<IdRef> {
         rest * 12 / 100 + 1 => Just(IdRef::Base(own)),
         rest * 10 / 100 + 1 => Just(IdRef::SnapVersion(own)),
         rest * 12 / 100 + 1 => (0u32..8).prop_map(IdRef::Fresh),
+        rest * 6 / 100 + 1 => (0u8..4, 0u8..4).prop_map(move |(back, mode)| IdRef::Near(own, back, mode)),
         rest * foreign / 100 + if foreign > 0 {1} else {0} => (any::<u8>(), 0u8..4, 0u8..6).prop_map(move |(k, which, b)| {
             let o = other(k);
             match which {
@@ -503,6 +524,7 @@ pub fn op(n: u8, p: &GenParams) -> BoxedStrategy<Op> {
             4 => 0u16..40,
             1 => prop::sample::select(EPOCH_OFFSETS.to_vec()).prop_map(|o| (62500 + o.clamp(-2500, 3035)) as u16),
             1 => (60000u16..=65535),
+            1 => (59900u16..59904),
         ]).prop_map(|(c, days)| Op::AgeSnapshot { c, days }),
     ]
     .boxed()
